@@ -55,6 +55,7 @@ struct SimAlloc {
   int64_t frees = 0, foreign_frees = 0, moves = 0;
   void* fail_bt[SIM_BT_DEPTH] = {0};   // call chain of the first injected failure
   int64_t first_failed_attempt = -1;
+  void (*on_first_fail)() = nullptr;   // called once, right after the first injected failure is decided
 };
 extern SimAlloc g_alloc;
 void sim_alloc_reset();                       // counters + config to defaults; live table kept
